@@ -264,3 +264,47 @@ func zzLogShape(path string) (bool, bool, int) {
 func zzLockDiscipline() (bool, bool, bool, bool) { return true, true, true, true }
 
 func zzLockFDOwned() bool { return true }
+
+// zzFirstBadLine natively: the same specification evaluated on the real file bytes.
+func zzFirstBadLine() (bool, int) {
+	data, err := os.ReadFile(zzLogPath())
+	if err != nil {
+		return false, 0
+	}
+	endsNL := len(data) > 0 && data[len(data)-1] == '\n'
+	lines := strings.Split(string(data), "\n")
+	if endsNL {
+		lines = lines[:len(lines)-1]
+	}
+	for i, l := range lines {
+		t := strings.TrimSpace(l)
+		if t == "" {
+			continue
+		}
+		var ev Event
+		if json.Unmarshal([]byte(t), &ev) != nil {
+			if i < len(lines)-1 || endsNL {
+				return true, i + 1
+			}
+		}
+	}
+	return false, 0
+}
+
+// zzStoreEffects natively: 0 when the log and its temp file are byte-identical to what they were
+// when the process began.
+func zzStoreEffects() int {
+	now, _ := os.ReadFile(zzLogPath())
+	tmp, err := os.ReadFile(zzLogPath() + ".tmp")
+	if string(now) != string(zzFS.snapLog) || (err == nil) != zzFS.tmpExist || string(tmp) != string(zzFS.snapTmp) {
+		return 1
+	}
+	return 0
+}
+
+// zzHistoryPreserved natively: the log as it was when the process began is a prefix of the log now
+// (for rewriting commands: its lines are the first lines of the new file).
+func zzHistoryPreserved() bool {
+	now, _ := os.ReadFile(zzLogPath())
+	return strings.HasPrefix(string(now), string(zzFS.snapLog))
+}
